@@ -295,7 +295,8 @@ CHECKS["C12"] = dict(
                "move shapes.  After every transaction, over the router's live objects minus this transaction's deleted lists: connectors "
                "and junctions form one tree (union-find), its shape leaves are exactly the original terminals, no junction is a leaf, "
                "every connector end is attached (pin or junction), no live connector hangs on a deleted junction, a pin-attached connector has a "
-               "route end on its terminal shape, and objects reported new (and not also deleted) are live.",
+               "route end on its terminal shape, and objects reported new (and not also deleted) are live; conversely (improvement-only transactions) nothing reported as new existed "
+               "before the transaction and every live junction or connector that did not exist before it is reported as new.",
     level_note="Objects in the deleted lists are ignored until the next transaction, as documented.  Not covered: hyperedges registered by terminal list (their connectors do not expose attachments through endpointConnEnds()) and the exact position of route ends at junctions (improvement moves junctions and nudging spreads the displayed ends).",
     rule="rapidcheck-generated hyperedge scenes; non-trivial = the rerouter or improver changed the topology (non-empty new/deleted lists) "
          "or the hyperedge was registered for rerouting; distinct by FNV-1a of the case text",
